@@ -3,3 +3,4 @@ use vstd::prelude::*;
 use vstd::arithmetic::power2::*;
 use vstd::arithmetic::div_mod::*;
 use vstd::arithmetic::mul::*;
+use vstd::std_specs::ops::*;
